@@ -46,6 +46,8 @@ def run(ck, tier):
     _utf16(ck, p, byk)
     _range(ck, p, byk)
     _verbatim(ck, p)
+    from . import c09, c05
+    c09._source(c05._Sub(ck, "R-C08-verbatim", "server-copy:"), p, "R-C08-verbatim")
 
 
 def _newline_closure(c):
